@@ -17,6 +17,8 @@ def c08_classify(c, i):
     out = []
     if c[0] == "c08.stopstress":
         return ["stop-stress(gate-free)", "stress-adders=" + c[2], "stress-workers=" + c[3], "stress-result=" + (i[0] if i else "?")]
+    if c[0] == "c08.hbperiod":
+        return ["heartbeat-period", "hb-timeout=%sms" % c[2], "hb-iterations=%d" % sum(1 for t in i if t == "h")]
     if c[0] == "c08.trickle":
         out = ["trickle", "trickle-timeout=%sms" % c[2], "trickle-gap=%sms" % c[3]]
         sizes = [c[7 + 2 * k] for k in range(int(c[6]))]
@@ -102,6 +104,20 @@ def fact_append_keeps_start(repo):
     return True, ""
 
 
+def fact_heartbeat_period(repo):
+    """heartbeat: the sleep between two re-evaluations is the constant 100 ms (the H of the bound timeout + H)"""
+    src = open(repo + "/pipeline/batch.go").read()
+    m = re.search(r"func \(b \*Batcher\) heartbeat\(\) \{.*?\n}\n", src, re.S)
+    if not m:
+        return False, "heartbeat not found"
+    body = re.sub(r"//[^\n]*", "", m.group(0))
+    sleeps = re.findall(r"time\.Sleep\(([^\n]*)\)\s*\n", body)
+    ok = {"time.Millisecond * 100", "100 * time.Millisecond", "time.Millisecond*100", "100*time.Millisecond"}
+    if len(sleeps) != 1 or sleeps[0].strip() not in ok:
+        return False, "heartbeat sleeps %r between re-evaluations, expected the constant 100 ms" % (sleeps,)
+    return True, ""
+
+
 def fact_update_status(repo):
     """updateStatus: the readiness condition the model's `readiness` mirrors"""
     src = open(repo + "/pipeline/batch.go").read()
@@ -125,8 +141,9 @@ CFG = {
     "facts": [("commitBatch: Commit inside seqMu after the commitSeq wait", fact_commit_wait),
               ("updateStatus readiness conditions", fact_update_status),
               ("trySendBatchAndUnlock: channel send precedes mu.Unlock", fact_send_before_unlock),
-              ("Batch.append leaves startTime alone", fact_append_keeps_start)],
-    "rule": "gate-free Stop stress first (6 x 150 rounds of 4-8 concurrent adders, count 1, 2-4 workers, Stop mid-traffic; result ok | panic | unsent-commit), 5 slow trickles (gap = 1/3..1/5 of a 120-200 ms flush timeout, count limit 1000, zero-size / child / sized events first-last-mixed; oracle = at most timeout/100+4 heartbeat iterations between an event's own append and the seal of its batch), then small scope (workers 1..4 x count 1..5 x byte limits, 1-12 events), then random configurations: workers 1..4, count 0..5, bytes 0..64, event sizes 0..40, kind mixes (regular / child / child-parent, parent-only batches), 1-3 concurrent adders, PRNG order of Add / OutFn release / commit-gate release, Stop at a PRNG position (2/3 of them inside the b.enqueue gate window), 3% with a 3 ms flush timeout and traffic pauses; distinct = distinct case line; non-trivial = at least one batch sealed and committed",
+              ("Batch.append leaves startTime alone", fact_append_keeps_start),
+              ("heartbeat period is the constant 100 ms", fact_heartbeat_period)],
+    "rule": "gate-free Stop stress first (6 x 150 rounds of 4-8 concurrent adders, count 1, 2-4 workers, Stop mid-traffic; result ok | panic | unsent-commit), 3 heartbeat-period cases (FlushTimeout 0.6 s .. 1 h, reference clock ticks `k` in the trace: never more than 4 clock ticks without a heartbeat iteration), 5 slow trickles (gap = 1/3..1/5 of a 120-200 ms flush timeout, count limit 1000, zero-size / child / sized events first-last-mixed; oracle = at most timeout/100+4 heartbeat iterations between an event's own append and the seal of its batch), then small scope (workers 1..4 x count 1..5 x byte limits, 1-12 events), then random configurations: workers 1..4, count 0..5, bytes 0..64, event sizes 0..40, kind mixes (regular / child / child-parent, parent-only batches), 1-3 concurrent adders, PRNG order of Add / OutFn release / commit-gate release, Stop at a PRNG position (2/3 of them inside the b.enqueue gate window), 3% with a 3 ms flush timeout and traffic pauses; distinct = distinct case line; non-trivial = at least one batch sealed and committed",
     "corr_name": "Batcher.step? accepts the observed boundary trace and computes the same seq/status/ForEach ids/commit ids",
     "trusted_base": [
         "Go runtime semantics of sync.Mutex, sync.Cond, channels (modelled, not verified); one model op per critical section of batch.go",
